@@ -587,6 +587,33 @@ fn gnp_extreme_p(rec: &Recorder, out: &mut RunOutput) {
             }
         }
     }
+    // zero-skip traces on graphs with ~10^4 and ~4*10^4 pairs: every dictated draw is r = 0.5 at p = 0.9, so every skip is
+    // floor(ln 0.5 / ln 0.1) = 0 and the walk must emit EVERY pair — the one trace whose outcome is known at any size
+    // (batched insertion, chunked buffers and cursor arithmetic past small n are all exercised by it)
+    for directed in [true, false] {
+        for n in [100i32, 140, 203] {
+            calls += 1;
+            let case = format!("x:{}:{}:{:e}:{:e},{:e}", directed as u8, n, 0.9, 0.5, 0.5);
+            let mk = |clause: &str, detail: String| Violation::new(clause, "fast_gnp_random_graph", case.clone(), format!("n={n} p=0.9 directed={directed}, every draw r=0.5 (skip 0 each time: every pair is due)\n{detail}")).with_tags(vec!["gnp_zero_skip_large".into()]);
+            match real_run(n, 0.9, directed, vec![], u64_for(0.5)) {
+                Err(pi) => rec.record(mk(if pi.is_overflow() { "no_overflow" } else { "no_panic" }, pi.msg.clone()).with_panic(pi)),
+                Ok(rr) => {
+                    if !rr.ok {
+                        rec.record(mk("succeeds", format!("returned Err: {}", rr.err)));
+                    } else if let Some(why) = structural(n, directed, &rr.nodes, &rr.edges) {
+                        rec.record(mk("structure", why));
+                    } else {
+                        let want = pairs_possible(n as i64, directed);
+                        let got: BTreeSet<(i32, i32)> = rr.edges.iter().map(|&(a, b)| if directed { (a, b) } else { (a.max(b), a.min(b)) }).collect();
+                        if got != want || rr.edges.len() != want.len() {
+                            let missing: Vec<_> = want.difference(&got).take(3).collect();
+                            rec.record(mk("trace_edges", format!("{} edges emitted ({} distinct pairs), the zero-skip trace emits all {} pairs; missing e.g. {:?}", rr.edges.len(), got.len(), want.len(), missing)));
+                        }
+                    }
+                }
+            }
+        }
+    }
     out.set("extreme_p_runs", calls);
 }
 
